@@ -360,4 +360,86 @@ Section Proofs.
     split; [exact T2|].
     constructor; [intros v Hx Hr; apply (V1 v Hr Hx)|exact V2].
   Qed.
+
+  (* ---- a property that is neither overridable nor cached never looks at, and
+     never writes, the instance-__dict__ entry under its own name: whatever is
+     stored there (e.g. by a custom setter that keeps its backing value under
+     that name) is not served as an override / cached value -- every read is
+     the getter's result on current state ---- *)
+  Definition agree_but_slot (m1 m2 : mst) : Prop := mu m1 = mu m2.
+
+  Lemma get_slot_ignored c mg m1 m2 :
+    overridable c = false -> cache c = false -> agree_but_slot m1 m2 ->
+    fst (desc_get c mg m1) = fst (desc_get c mg m2) /\
+    agree_but_slot (snd (desc_get c mg m1)) (snd (desc_get c mg m2)) /\
+    slot (snd (desc_get c mg m1)) = slot m1 /\ slot (snd (desc_get c mg m2)) = slot m2.
+  Proof.
+    intros Eo Ec E. unfold agree_but_slot in *. unfold desc_get. rewrite Eo, Ec, E. simpl.
+    destruct (has_fget c); simpl; [|auto].
+    destruct (fget (mu m2)) as [[v|e] u']; simpl.
+    - destruct mg; simpl; [|auto].
+      destruct (prepare v) as [v'|e']; simpl; [|auto].
+      destruct (tyok v'); simpl; auto.
+    - destruct e; simpl; auto.
+  Qed.
+
+  Lemma step_slot_ignored c o x m1 m2 :
+    overridable c = false -> cache c = false -> agree_but_slot m1 m2 ->
+    fst (m_step c o m1 x) = fst (m_step c o m2 x) /\
+    agree_but_slot (snd (m_step c o m1 x)) (snd (m_step c o m2 x)) /\
+    slot (snd (m_step c o m1 x)) = slot m1 /\ slot (snd (m_step c o m2 x)) = slot m2.
+  Proof.
+    intros Eo Ec E.
+    assert (SET : forall v, fst (desc_set c v m1) = fst (desc_set c v m2) /\
+              agree_but_slot (snd (desc_set c v m1)) (snd (desc_set c v m2)) /\
+              slot (snd (desc_set c v m1)) = slot m1 /\ slot (snd (desc_set c v m2)) = slot m2).
+    { intro v. unfold desc_set, lift_unit, agree_but_slot in *. rewrite Eo, E.
+      destruct (has_fset c); simpl; auto. }
+    assert (DEL : forall p, fst (desc_delete c (mkm (slot m1) (p (mu m1)))) = fst (desc_delete c (mkm (slot m2) (p (mu m2)))) /\
+              agree_but_slot (snd (desc_delete c (mkm (slot m1) (p (mu m1))))) (snd (desc_delete c (mkm (slot m2) (p (mu m2))))) /\
+              slot (snd (desc_delete c (mkm (slot m1) (p (mu m1))))) = slot m1 /\
+              slot (snd (desc_delete c (mkm (slot m2) (p (mu m2))))) = slot m2).
+    { intro p. unfold desc_delete, lift_unit, agree_but_slot in *. rewrite Eo, Ec, E. simpl.
+      destruct (has_fdel c); simpl; auto. }
+    destruct x as [|v| |p]; simpl.
+    - unfold lift_val, obj_read.
+      destruct (get_slot_ignored c (managed o) m1 m2 Eo Ec E) as (A & B & C & D).
+      destruct (get_slot_ignored c (managed o) _ _ Eo Ec B) as (A2 & B2 & C2 & D2).
+      destruct (is_spec o); simpl; [|rewrite A; auto].
+      rewrite <- A.
+      destruct (fst (desc_get c (managed o) m1)) as [v0|e0] eqn:E1; simpl;
+        [rewrite E1, <- A; auto|].
+      destruct e0; simpl; try (rewrite E1, <- A; now auto).
+      rewrite A2, C2, D2. auto.
+    - unfold obj_assign. destruct o as [|i|i].
+      + apply SET.
+      + destruct (is_sentinel v); simpl; auto.
+      + destruct (prepare v) as [v'|e]; simpl; auto.
+        destruct (is_sentinel v'); simpl; auto.
+        destruct (tyok v'); simpl; auto.
+    - unfold obj_delete. destruct m1 as [s1 u1], m2 as [s2 u2].
+      apply (DEL (fun u => u)).
+    - unfold obj_poke. destruct (invalidates o); simpl.
+      + destruct (DEL (poke p)) as (A & B & C & D).
+        destruct (desc_delete c (mkm (slot m1) (poke p (mu m1)))) as [r1 n1].
+        destruct (desc_delete c (mkm (slot m2) (poke p (mu m2)))) as [r2 n2].
+        simpl in *. subst r2. destruct r1 as [x|e]; simpl; auto. destruct e; simpl; auto.
+      + unfold agree_but_slot in *. rewrite E. auto.
+  Qed.
+
+  (* whole histories: the outcomes and the underlying state do not depend on
+     what the own-name entry holds, and the entry is never written *)
+  Theorem run_slot_ignored c o : forall xs m1 m2,
+    overridable c = false -> cache c = false -> mu m1 = mu m2 ->
+    fst (m_run c o m1 xs) = fst (m_run c o m2 xs) /\
+    mu (snd (m_run c o m1 xs)) = mu (snd (m_run c o m2 xs)) /\
+    slot (snd (m_run c o m1 xs)) = slot m1.
+  Proof.
+    induction xs as [|x t IH]; intros m1 m2 Eo Ec E; simpl; [auto|].
+    destruct (step_slot_ignored c o x m1 m2 Eo Ec E) as (A & B & C & D).
+    destruct (m_step c o m1 x) as [r1 n1], (m_step c o m2 x) as [r2 n2]. simpl in *. subst r2.
+    destruct (IH n1 n2 Eo Ec B) as (A2 & B2 & C2).
+    destruct (m_run c o n1 t) as [rs1 k1], (m_run c o n2 t) as [rs2 k2]. simpl in *.
+    subst rs2. rewrite C2. auto.
+  Qed.
 End Proofs.
